@@ -171,6 +171,13 @@ def run_check(modname, tier, seed, workers=None):
     if th is not None:
         th.join()
     extra = extra_box[0] if extra_box else None
+    if hasattr(mod, 'after'):
+        more = mod.after(tier, seed, results, log)
+        if more:
+            extra = extra or {}
+            for key in ('violations', 'problems'):
+                extra[key] = list(extra.get(key, [])) + list(more.get(key, []))
+            extra['evidence'] = dict(extra.get('evidence', {}), **more.get('evidence', {}))
     return finish(mod, plan, tier, seed, results, t0, len(units), extra)
 
 
